@@ -187,7 +187,7 @@ class Ctx:
     def report(self, key, p, what, jde, call):
         self.keys[key] = self.keys.get(key, 0) + 1
         if self.keys[key] > 3: return
-        imp = "from pymeeus.Epoch import Epoch; from pymeeus.Coordinates import *; from pymeeus.%s import *" % p
+        imp = "from pymeeus.Epoch import Epoch; from pymeeus.Angle import Angle; from pymeeus.Coordinates import *; from pymeeus.%s import *" % p
         self.findings.append({
             "key": key, "what": "%s: %s" % (p, what), "input": {"planet": p, "jde": jde, "call": call},
             "replay": "PYTHONPATH=%s /venv/bin/python -c \"%s; r = %s; print([float(x) for x in r])\"" % (K.REPO, imp, call)})
@@ -245,6 +245,7 @@ def check_epoch(cx, p, jde, full=True):
     ecall = "%s.orbital_elements_mean_equinox(Epoch(%r))" % (p, jde)
     try:
         ll, a, ecc, inc, node, arg = cls.orbital_elements_mean_equinox(e)
+        mean_anom = ll - arg - node         # an Angle in (-360, 360), as a user of the library forms it
         ll, inc, node, arg = float(ll), float(inc), float(node), float(arg)
         lj = cls.orbital_elements_j2000(e)
     except Exception as ex:
@@ -291,6 +292,20 @@ def check_epoch(cx, p, jde, full=True):
                   % (lon, lat, kl, kb, tol, jde), jde, gcall)
     if abs(kr / r - 1.0) > 0.01:
         cx.report("kepler-agreement-radius", p, "VSOP r = %.8f, Kepler on mean elements %.8f: more than 1 %% at JDE %r" % (r, kr, jde), jde, gcall)
+    # the same through the library's own solver of Kepler's equation (mean anomaly as the Angle L - arg - node)
+    kcall = "kepler_equation(%r, Angle(%r))" % (ecc, float(mean_anom))
+    try:
+        big_e, v = cx.C.kepler_equation(ecc, mean_anom); cx.n += 1
+        u = math.radians(arg + float(v))
+        ll2 = math.degrees(math.radians(node) + math.atan2(math.sin(u) * math.cos(math.radians(inc)), math.cos(u))) % 360.0
+        lb2 = math.degrees(math.asin(math.sin(u) * math.sin(math.radians(inc))))
+        lr2 = a * (1 - ecc * math.cos(math.radians(float(big_e))))
+        if abs(wrap180(ll2 - lon)) > tol or abs(lb2 - lat) > tol or abs(lr2 / r - 1.0) > 0.01:
+            cx.report("kepler-agreement-library-solver", p, "VSOP (L,B,r) = (%.5f, %.5f, %.6f); the library's %s on its mean elements gives (%.5f, %.5f, %.6f): "
+                      "more than %.2f deg / 1 %% at JDE %r (an independent solver gives (%.5f, %.5f, %.6f))"
+                      % (lon, lat, r, kcall, ll2, lb2, lr2, tol, jde, kl, kb, kr), jde, kcall)
+    except Exception as ex:
+        cx.report("kepler-agreement-library-solver", p, "%s raises %r at JDE %r" % (kcall, ex, jde), jde, kcall)
     # --- evaluator vs exactly rounded direct double sum of the same tables
     if full:
         dl, db, dr = direct_sum(m.VSOP87_L, t), direct_sum(m.VSOP87_B, t), direct_sum(m.VSOP87_R, t)
